@@ -321,6 +321,8 @@ def model_b(ctx, module, cfg, recs, *, env=None, timeout=1200, chunk=None, name=
         if len(summ) != 1 or summ[0]["n"] != cnt or summ[0]["bad"] != len(got):
             raise Infra("model B %s did not consume its chunk: summary=%s records=%d viol=%d\n%s" % (
                 module, summ, cnt, len(got), "\n".join(r["tail"][-30:])))
+        if "div" in summ[0]:            # diagnostics of the module (never a verdict), summed over the chunks
+            ctx.coverage_extra["diagnostic_divergences_" + (name or module)] = ctx.coverage_extra.get("diagnostic_divergences_" + (name or module), 0) + summ[0]["div"]
         return got, r
     # memory-aware: at most ~24 GB of TLC heaps at once
     par = max(1, min(NCPU, len(parts), int(24 // max(1, int(heap.rstrip('g') or 3)))))
